@@ -323,6 +323,7 @@ func (e *Engine) verifyCasePred(c *Contract, combo []caseChoice, selRet, selPred
 	x := NewExec(e)
 	x.selectReturn = selRet
 	x.selectPred = selPred
+	x.staleClauses = append(x.staleClauses, c.StaleLoops...)
 	x.combo = combo
 	res = &Result{Contract: c, Exec: x}
 	var tags []string
